@@ -125,9 +125,17 @@ func RunReplay(t *testing.T, table map[string]func()) {
 			}
 			// nothing to release: either the harness is waiting for virtual time or it is stuck
 			stuck++
+			if stuck == 2 && Parked() != "" {
+				// the recorded order cannot be followed any further (scheduling between two gates is not
+				// controlled): let the parked goroutines through one at a time in a stable order and see
+				// whether the oracle still fails
+				AbandonOrder()
+				out.Note = fmt.Sprintf("gate order abandoned at %q; parked: %s", label, Parked())
+				continue
+			}
 			if stuck > 3 {
 				out.Status = "deadlock"
-				out.Note = fmt.Sprintf("stuck: next gate %q not reached; parked: %s", label, Parked())
+				out.Note += fmt.Sprintf(" stuck: next gate %q not reached; parked: %s", label, Parked())
 				break loop
 			}
 			time.Sleep(time.Hour) // let virtual timers fire
